@@ -68,7 +68,8 @@ theorem create_chrom_ids_is_the_source (first : List Seg) :
   unfold createChromIds Generated.src_create_chrom_ids
   refine congrArg (fun f => List.filterMap f _) ?_
   funext ⟨c, i⟩
-  simp [Nat.add_comm]
+  try simp only [Nat.add_comm 1 _, bne_comm (a := c)]
+  try simp [Nat.add_comm]
 
 /-- `export_seg` → `write_seg`: the chromosomes of the FIRST sample are numbered exactly under the source's test
     (`chrom_ids in (None, True)`), with the source's mapping; every sample is then formatted with that mapping -/
